@@ -380,42 +380,49 @@ func runC17(ci interface{}, a *run.Acc) {
 			}
 		}
 		zx.Remove(path)
-		for off := c.Shard; off < size; off += c.Of {
-			p := zx.TempPath("c17f")
-			var opErr error
-			if err := withFileSizeLimit(off, func() { opErr = op(p) }); err != nil {
-				a.Note("cannot set RLIMIT_FSIZE: " + err.Error())
-				return
-			}
-			a.Eval(1)
-			a.NonTrivial(fmt.Sprintf("%d/%s/%d", c.Input, c.Op, off))
-			st, statErr := os.Stat(p)
-			if opErr == nil {
-				// success under a size limit is legitimate only if this run's layout is
-				// shorter than the limit (see above): the file must then be complete and correct
-				if statErr == nil && st.Size() <= int64(off) {
-					if m := checkComplete(p, env.exp, 1026); m == "" {
-						zx.Remove(p)
-						a.Outcome("fault-not-reached(shorter layout)")
-						continue
+		for pass := 0; pass < 2; pass++ {
+			for off := c.Shard; off < size; off += c.Of {
+				p := zx.TempPath("c17f")
+				if pass == 1 {
+					// second pass: an older, longer file already sits at the destination (written
+					// before the size limit is in force)
+					os.WriteFile(p, bytes.Repeat([]byte{0x5a}, size+64), 0600)
+				}
+				var opErr error
+				if err := withFileSizeLimit(off, func() { opErr = op(p) }); err != nil {
+					a.Note("cannot set RLIMIT_FSIZE: " + err.Error())
+					return
+				}
+				a.Eval(1)
+				a.NonTrivial(fmt.Sprintf("%d/%s/%d/%d", c.Input, c.Op, off, pass))
+				st, statErr := os.Stat(p)
+				if opErr == nil {
+					// success under a size limit is legitimate only if this run's layout is
+					// shorter than the limit (see above): the file must then be complete and correct
+					if statErr == nil && st.Size() <= int64(off) {
+						if m := checkComplete(p, env.exp, 1026); m == "" {
+							zx.Remove(p)
+							a.Outcome("fault-not-reached(shorter layout)")
+							continue
+						}
 					}
+					msg := fmt.Sprintf("writes beyond byte %d failed (EFBIG; fault-free size %d) but the operation returned nil", off, size)
+					if statErr == nil {
+						msg += fmt.Sprintf("; an incomplete file of %d bytes is left", st.Size())
+					}
+					zx.Remove(p)
+					fail("silent-failure", msg)
+					a.Outcome("silent")
+					return
 				}
-				msg := fmt.Sprintf("writes beyond byte %d failed (EFBIG; fault-free size %d) but the operation returned nil", off, size)
 				if statErr == nil {
-					msg += fmt.Sprintf("; an incomplete file of %d bytes is left", st.Size())
+					zx.Remove(p)
+					fail("file-left", fmt.Sprintf("writes beyond byte %d of %d failed and the operation returned %q, but a file of %d bytes is left at the path", off, size, opErr, st.Size()))
+					a.Outcome("file-left")
+					return
 				}
-				zx.Remove(p)
-				fail("silent-failure", msg)
-				a.Outcome("silent")
-				return
+				a.Outcome("error-and-no-file")
 			}
-			if statErr == nil {
-				zx.Remove(p)
-				fail("file-left", fmt.Sprintf("writes beyond byte %d of %d failed and the operation returned %q, but a file of %d bytes is left at the path", off, size, opErr, st.Size()))
-				a.Outcome("file-left")
-				return
-			}
-			a.Outcome("error-and-no-file")
 		}
 	}
 }
@@ -424,7 +431,7 @@ func init() {
 	run.Register(&run.Def{
 		ID:          "C17",
 		Level:       "fault_enumeration",
-		Rule:        "deviation enumeration on the real write paths: for each of 13 inputs (builds: small, multi-field with doc values, synonyms, empty batch, composite field, varint-boundary values, a stored value larger than the write buffer; merges of 2-3 segments with and without deletions, synonyms, overlapping field lists, without survivors, byte-copy path with varint-boundary values): WriteTo(w) with w failing at EVERY byte offset 0..len-1, once as (short count, error) and once as an all-or-nothing writer returning (0, error) for the write that would cross the offset; Persist(path) and Merge(...,path) under RLIMIT_FSIZE = N for EVERY N in [0, size) (a real torn write at byte N followed by EFBIG; DefaultFileMergerBufferSize = 16 so that flush boundaries are dense); plus the fault-free run of each; in the instrumented flavour (package os replaced by a shim in the write paths) also the failure of the n-th Write call on the file handle for EVERY n, of Sync and of Close; the whole enumeration is repeated in the instrumented flavour under both orders in which the two sections can be laid out (in the plain flavour the order is whatever the Go runtime picks). Also every fault-free Persist / Merge is repeated onto a path that already holds a longer file. Oracle: every fault yields a non-nil error and, for the path-based operations, no file at the path; the fault-free run yields identical Persist/WriteTo bytes, a footer with count/chunk mode/version 16/CRC-32 (independent decoder), re-opens to the reference content, and Merge's maps and size are right. Non-trivial = one (input, operation, fault offset) whose fault was actually triggered.",
+		Rule:        "deviation enumeration on the real write paths: for each of 13 inputs (builds: small, multi-field with doc values, synonyms, empty batch, composite field, varint-boundary values, a stored value larger than the write buffer; merges of 2-3 segments with and without deletions, synonyms, overlapping field lists, without survivors, byte-copy path with varint-boundary values): WriteTo(w) with w failing at EVERY byte offset 0..len-1, once as (short count, error) and once as an all-or-nothing writer returning (0, error) for the write that would cross the offset; Persist(path) and Merge(...,path) under RLIMIT_FSIZE = N for EVERY N in [0, size) (a real torn write at byte N followed by EFBIG; DefaultFileMergerBufferSize = 16 so that flush boundaries are dense); plus the fault-free run of each; in the instrumented flavour (package os replaced by a shim in the write paths) also the failure of the n-th Write call on the file handle for EVERY n, of Sync and of Close; the whole enumeration is repeated in the instrumented flavour under both orders in which the two sections can be laid out (in the plain flavour the order is whatever the Go runtime picks). Every fault-free and every faulty Persist / Merge is also run onto a path that already holds an older, longer file. Oracle: every fault yields a non-nil error and, for the path-based operations, no file at the path; the fault-free run yields identical Persist/WriteTo bytes, a footer with count/chunk mode/version 16/CRC-32 (independent decoder), re-opens to the reference content, and Merge's maps and size are right. Non-trivial = one (input, operation, fault offset) whose fault was actually triggered.",
 		Assumptions: []string{"Sync / Close / n-th-Write-call failures of the file handle are injected through a build-time replacement of package os in the write paths (instrumented flavour)", "the size of an output depends on the order in which sections are laid out (Go map order changes varint lengths of offsets): a run whose output is shorter than the fault offset is accepted iff it is a complete correct output", "fault runs use fresh paths; the fault-free run is also repeated onto a path that holds a longer file"},
 		Bounds:      map[string]string{"quick": "14 inputs, every byte offset of every output (2 legal WriteTo failure modes; Persist for the 7 build inputs; Merge for the 7 merge inputs), random section order + both section orders", "thorough": "the 14 inputs plus 17 more builds (every text / synonym menu item) and 239 more merges (every ordered pair of text menu items without and with deletions, every ordered pair of synonym menu items): every byte offset of every output, handle faults at every Write call"},
 		Flavours:    func(string) []string { return []string{"plain", "inst"} },
